@@ -19,7 +19,10 @@ class Variable(ASTNode):
 
     def get_string(self, *args, **kwargs):
         name = str(self.value)
-        if not no_wrap_variable_regex.fullmatch(name) and '`' not in name:
-            name = f'`{name}`'
+        if not no_wrap_variable_regex.fullmatch(name):
+            # the name may hold any character except its own delimiter: take the first one it does not contain
+            quote = next((q for q in ('`', "'", '"') if q not in name), None)
+            if quote is not None:
+                name = f'{quote}{name}{quote}'
         return ('@@' if self.is_system_var else '@') + name
 
